@@ -51,6 +51,9 @@ PROPS = {
                 quick=['std-lax', 'std-strict'], thorough=list(CONFIGS)),
     'C05': dict(workload='C05', oracle=['C05'], project=proj_identity,
                 quick=['std-lax', 'std-strict'], thorough=list(CONFIGS)),
+    'C06': dict(workload='C06', oracle=['C06', 'C01', 'C02', 'C04'], project=proj_identity,
+                quick=['std-lax', 'std-strict'], thorough=list(CONFIGS)),
+    'C18': dict(custom='c18_check'),
     'C08': dict(workload='C08', oracle=['C08'], project=proj_identity,
                 quick=['std-lax'], thorough=['std-lax', 'nostd-lax']),
     'C09': dict(workload='C09', oracle=['C09'], project=proj_identity, spec_ops=('contchk',),
@@ -77,6 +80,65 @@ PROPS = {
 # ---------------------------------------------------------------------------------------------
 # helpers
 # ---------------------------------------------------------------------------------------------
+
+def c18_check(pid, tier, seed):
+    """C18: rustc accept/reject of generated items vs the statement's list vs the model"""
+    import c18, shutil
+    t0 = time.time()
+    proof = proof_step(pid, tier)
+    log('%s proof step: %d/%d theorems discharged%s' % (pid, proof['discharged'], proof['obligations'],
+                                                      '' if proof['ok'] else ' -- BROKEN'))
+    for d in proof['detail']:
+        log('  ' + d[:2000])
+    cfg = 'std-lax'
+    rc, out, binpath = build_harness(cfg)
+    known = load_known()
+    stats = dict(evaluations=0, disagreements=0, oracle_failures=0, oracle_checks=0, families={}, outcomes={}, per_cfg={})
+    violations, samples, distinct, build_errors, knowns = [], [], set(), [], {}
+    if rc != 0:
+        build_errors.append((cfg, out[-3000:]))
+    else:
+        items = c18.build(seed, tier == 'thorough')
+        work = os.path.join(BUILD, 'c18', 'work-%d' % os.getpid())
+        try:
+            res = c18.compile_all(items, os.path.join(BUILD, 'target-' + cfg, 'debug', 'deps'), work)
+        finally:
+            pass
+        cases = ['derive ' + it.sx() for it, _, _ in items]
+        p = subprocess.run([DRIVER], input='\n'.join(cases) + '\n', stdout=subprocess.PIPE, stderr=subprocess.PIPE, text=True)
+        model = p.stdout.split('\n')[:-1]
+        if p.returncode != 0 or len(model) != len(cases):
+            build_errors.append((cfg, 'driver failed on derive lines: ' + p.stderr[-500:]))
+        else:
+            for (it, exp, rule), (obs, first), c, m in zip(items, res, cases, model):
+                stats['evaluations'] += 1
+                stats['oracle_checks'] += 1
+                stats['families'][rule] = stats['families'].get(rule, 0) + 1
+                stats['outcomes'][obs] = stats['outcomes'].get(obs, 0) + 1
+                distinct.add(c)
+                if len(samples) < 6 and stats['evaluations'] % 19 == 1:
+                    samples.append(dict(case=c[:300], rule=rule, rustc=obs, first_diagnostic=first[:160], model=m))
+                if m.startswith('bad-case'):
+                    build_errors.append((cfg, 'driver rejected: ' + c[:200]))
+                    continue
+                detail = 'rule %s: the statement says %s, rustc says %s (%s), the model says %s' % (rule, exp, obs, first[:160], m)
+                if obs != exp:
+                    stats['oracle_failures'] += 1
+                    k = known_match(known, pid, cfg, c, detail)
+                    if k:
+                        knowns.setdefault(k['id'], [k, 0])[1] += 1
+                    else:
+                        violations.append((cfg, c + '   // source: ' + it.src().split('\n', 12)[-1].replace('\n', ' ')[:400], detail, 'impl-violates-property'))
+                elif m.split(' ')[0] != obs:
+                    stats['disagreements'] += 1
+                    violations.append((cfg, c, detail, 'correspondence-broken'))
+        shutil.rmtree(work, ignore_errors=True)
+    stats['per_cfg'][cfg] = dict(cases=stats['evaluations'], disagreements=stats['disagreements'],
+                                 oracle_failures=stats['oracle_failures'])
+    return finish(pid, tier, seed, dict(workload='derive'), proof, stats, distinct, samples, [cfg], t0, violations,
+                  knowns, build_errors, extra=dict(programs=stats['evaluations'],
+                  explanation='one tiny crate per item, compiled by rustc against the borsh rlib and derive .so cargo built from /repo'))
+
 
 class Lock:
     def __init__(self, name):
@@ -299,7 +361,7 @@ def run_check(pid, tier, only_cfgs=None, quiet=False):
     spec = PROPS[pid]
     custom = spec.get('custom')
     if custom:
-        return custom(pid, tier, seed)
+        return globals()[custom](pid, tier, seed)
     proof = proof_step(pid, tier)
     log('%s proof step: %d/%d theorems discharged%s' % (pid, proof['discharged'], proof['obligations'],
                                                       '' if proof['ok'] else ' -- BROKEN'))
@@ -435,6 +497,11 @@ def run_check(pid, tier, only_cfgs=None, quiet=False):
                         stats['oracle_failures'] += 1
                 stats['raw_message_cases_compared'] = stats.get('raw_message_cases_compared', 0) + nraw
                 stats['oracle_checks'] += nraw
+    return finish(pid, tier, seed, spec, proof, stats, distinct, samples, cfgs, t0, violations, knowns, build_errors,
+                  builds=builds, known=known)
+
+def finish(pid, tier, seed, spec, proof, stats, distinct, samples, cfgs, t0, violations, knowns, build_errors,
+           builds=None, known=None, extra=None):
     # ---- verdict
     exit_code = 0
     for kid, (k, n) in sorted(knowns.items()):
@@ -471,7 +538,7 @@ def run_check(pid, tier, only_cfgs=None, quiet=False):
         # the tie or a proof is broken but no input violating the property itself was found among
         # the cases: widen the search on the implementation before giving up
         found = None
-        if corr and tier == 'quick' and not os.environ.get('VERIF_NO_SEARCH'):
+        if corr and tier == 'quick' and builds is not None and not os.environ.get('VERIF_NO_SEARCH'):
             found = targeted_search(pid, spec, cfgs, builds, seed, known)
         if found:
             cfg, case, detail = found
@@ -498,7 +565,7 @@ def run_check(pid, tier, only_cfgs=None, quiet=False):
         exit_code = 1
     # ---- evidence
     write_evidence(pid, tier, seed, spec, proof, stats, distinct, samples, cfgs, t0,
-                   n_viol=(1 if exit_code else 0), knowns=knowns)
+                   n_viol=(1 if exit_code else 0), knowns=knowns, extra=extra)
     log('%s %s: %d cases, %d disagreements, %d oracle failures, %d known-finding cases, exit %d, %.1fs' % (
         pid, tier, stats['evaluations'], stats['disagreements'], stats['oracle_failures'],
         sum(n for _, n in knowns.values()), exit_code, time.time() - t0))
